@@ -346,6 +346,8 @@ class Check(PropertyCheck):
                         res.oracle_failures.append({"what": "checksum-only mode, %s threads each observing its own UNTOUCHED file %s times: %s observations differ from the single-threaded baseline (%s distinct baselines for %s different files)" % (
                             f["files"], f["reps"], f["unequal"], f["distinct_baselines"], f["files"]), "mode": "checksum-only", "call": "getFileInfo (concurrent)", "kind": "untouched-unequal", "concurrent": True, "input": {"line": l, "par": True}})
                 res.distribution["concurrent_untouched_observations"] = tot
+            if replay_par:
+                return
         hrc, hout, herr = C.run_lines([ctx.exe[("vc13", "plain")], "pairs", scratch], lines)
         if hrc != 0 or len(hout) != len(lines):
             res.mismatches.append({"stream": "c13pairs", "input": "harness exit %d, %d/%d lines" % (hrc, len(hout), len(lines)), "impl": herr[-300:]})
